@@ -567,5 +567,778 @@ def child_main():
     sys.stdout.flush()
 
 
+# =====================================================================================
+# parent side
+# =====================================================================================
+MAIN_CFG = """SPECIFICATION Spec
+CONSTANTS
+  Modules = %(mods)s
+  Confs = %(confs)s
+  Threads = %(threads)s
+  MaxSrc = %(maxsrc)d
+  MaxRuns = %(maxruns)d
+  MarkerMode = "%(marker)s"
+  PatchMode = "%(patch)s"
+  Nest = %(nest)s
+%(inv)s
+CHECK_DEADLOCK FALSE
+"""
+ALL_INV = "INVARIANT I1plain\nINVARIANT I1marked\nINVARIANT I2\nINVARIANT I3\n"
+
+TRACE_CFG = """SPECIFICATION TSpec
+CONSTANTS
+  Modules = {"a", "b", "pa", "pb", %(foreign)s}
+  Foreign = {%(foreign)s}
+  Confs = {"default", "vt", "nopep", "ffirst", "flast", "tfirst"}
+  Threads = {1, 2}
+  MaxSrc = 1000
+  MaxRuns = 1000000
+  MarkerMode = "%(marker)s"
+  PatchMode = "%(patch)s"
+  Nest = TRUE
+CONSTRAINT Reached
+POSTCONDITION Accepted
+CHECK_DEADLOCK FALSE
+"""
+FOREIGN_IDS = ["f%d" % i for i in range(1, 9)]
+
+
+def _set(items):
+    return "{" + ", ".join(('"%s"' % i) if isinstance(i, str) else str(i) for i in items) + "}"
+
+
+def _cfg(d, name, **kw):
+    from verifkit.util import write_file
+    p = dict(mods=_set(kw["mods"]), confs=_set(kw["confs"]), threads=_set(kw["threads"]), maxsrc=kw.get("maxsrc", 1),
+             maxruns=kw.get("maxruns", 1), marker=kw["marker"], patch=kw["patch"],
+             nest="TRUE" if kw.get("nest") else "FALSE", inv=kw.get("inv", ALL_INV))
+    return write_file(d, name + ".cfg", MAIN_CFG % p)
+
+
+def _unhash(x):
+    """inverse of tlc._hashable for records used as function arguments (tags)."""
+    if isinstance(x, tuple) and x and all(isinstance(i, tuple) and len(i) == 2 and isinstance(i[0], str) for i in x):
+        return {k: _unhash(v) for k, v in x}
+    return x
+
+
+def facts(body):
+    """canonical, human-readable form of the AST-relevant options of a body (violation keys)."""
+    if not body or not body.get("hooked"):
+        return "unhooked"
+    k = body["key"]
+    return {"claw_is_pep526": bool(k["p526"]), "claw_decor_place_func": PLACE_FULL.get(k["pf"], k["pf"]),
+            "claw_decor_place_type": PLACE_FULL.get(k["pt"], k["pt"])}
+
+
+class Ctx:
+    def __init__(self, rep, root, seed):
+        self.rep, self.root, self.seed = rep, root, seed
+        self.common = os.path.join(root, "common")
+        self.prefix = os.path.join(root, "pyc")
+        os.makedirs(os.path.join(self.common, STUB))
+        with open(os.path.join(self.common, STUB, "__init__.py"), "w") as fh:
+            fh.write(STUB_SRC)
+        os.makedirs(self.prefix)
+        env = dict(os.environ)
+        env.pop("PYTHONDONTWRITEBYTECODE", None)
+        env["PYTHONPYCACHEPREFIX"] = self.prefix     # nothing is ever written next to /repo's sources
+        self.env = env
+        self.ntree = 0
+        self.child_runs = 0
+        self.marker_mode = None
+        self.patch_mode = None
+        self.tables = None
+        self.marker_of_conf = {}       # conf name -> real marker string
+        self.tag_of_marker = {"": {"marked": False, "key": dict(NOKEY)}}
+        self.ref = {}                  # (conf, version) -> behaviour vector on an empty cache
+        self.foreign = {STUB: "f1"}
+        self.traces = []               # (behaviour description, [event, ...]) for R3
+        import threading
+        self.lock = threading.Lock()
+
+    # ---- trees ---------------------------------------------------------------------
+    def new_tree(self):
+        with self.lock:
+            self.ntree += 1
+            n = self.ntree
+        tree = os.path.join(self.root, "t%05d" % n)
+        for m, p in PKG.items():
+            os.makedirs(os.path.join(tree, p))
+            for f in ("__init__.py", "mod.py"):
+                self.write_source(tree, m, 1, f)
+        return tree
+
+    @staticmethod
+    def write_source(tree, m, ver, fname="mod.py"):
+        fn = os.path.join(tree, PKG[m], fname)
+        with open(fn, "w") as fh:
+            fh.write(module_source(ver))
+        os.utime(fn, (T0 + 10 * ver, T0 + 10 * ver))
+
+    def run_child(self, tree, hook, order=None, schedule=None, vers=None):
+        import subprocess
+        spec = {"tree": tree, "common": self.common, "hook": hook, "order": order or [], "schedule": schedule,
+                "vers": vers or {}}
+        with self.lock:
+            self.child_runs += 1
+            n = self.child_runs
+        sp = os.path.join(tree, "run%d.json" % n)
+        with open(sp, "w") as fh:
+            json.dump(spec, fh)
+        cp = subprocess.run([sys.executable, "-W", "ignore", "-c",
+                             "from verifkit.drivers.c16 import child_main; child_main()", sp],
+                            capture_output=True, text=True, env=self.env, timeout=300)
+        for line in cp.stdout.splitlines():
+            if line.startswith(RESULT_TAG):
+                return json.loads(line[len(RESULT_TAG):])
+        raise RuntimeError(f"interpreter run produced no result (exit {cp.returncode}):\n{cp.stderr[-1500:]}")
+
+    def project_dir(self, tree, m):
+        """the .pyc files of module m's mod.py: {marker string: {"sv", "body"}}."""
+        d = self.prefix + os.path.abspath(os.path.join(tree, PKG[m]))
+        out = {}
+        if os.path.isdir(d):
+            for fn in sorted(os.listdir(d)):
+                if fn.startswith("mod.") and fn.endswith(".pyc"):
+                    with open(os.path.join(d, fn), "rb") as fh:
+                        mtime, body = parse_pyc(fh.read())
+                    dv = mtime - T0
+                    out[marker_of_path(fn)] = {"sv": dv // 10 if dv > 0 and dv % 10 == 0 else -1, "body": body}
+        return out
+
+    # ---- behaviours ------------------------------------------------------------------
+    def exec_behaviour(self, beh):
+        """beh = {"steps": [{"op": "edit", "m"} | {"op": "run", "hook", "order" | "schedule"}]}
+        -> list of run records (one per run step) and the raw event log."""
+        tree = self.new_tree()
+        vers = {m: 1 for m in PKG}
+        runs, log = [], [{"ev": "Reset"}]
+        for st in beh["steps"]:
+            if st["op"] == "edit":
+                vers[st["m"]] += 1
+                self.write_source(tree, st["m"], vers[st["m"]])
+                log.append({"ev": "Edit", "m": st["m"]})
+                continue
+            out = self.run_child(tree, st["hook"], st.get("order"), st.get("schedule"), vers)
+            hk = dict(st["hook"])
+            hk.update({PKG[m]: c for m, c in st["hook"].items()})
+            log.append({"ev": "Start", "hook": {m: c for m, c in hk.items() if c != "off"}})
+            log.extend(out.pop("events"))
+            log.append({"ev": "End"})
+            runs.append({"out": out, "vers": dict(vers), "hook": st["hook"],
+                         "dir": {m: self.project_dir(tree, m) for m in st["hook"]}})
+        return runs, log
+
+    # ---- R3: event normalisation --------------------------------------------------------
+    def foreign_id(self, name):
+        with self.lock:
+            if name not in self.foreign:
+                if len(self.foreign) >= len(FOREIGN_IDS):
+                    return None
+                self.foreign[name] = FOREIGN_IDS[len(self.foreign)]
+            return self.foreign[name]
+
+    def norm_events(self, log):
+        """raw child events -> records for PycCacheTrace.tla (None: cannot be expressed)."""
+        tree_ids = {PKG[m] + ".mod": m for m in PKG}
+        tree_ids.update({p: p for p in PKG.values()})
+        out = []
+        for e in log:
+            ev = e["ev"]
+            if ev in ("Reset", "Start", "End", "Edit"):
+                out.append((e, dict(e)))
+                continue
+            name = e.get("name")
+            if name is None:
+                return None, f"assignment to importlib's global outside any import: {e}"
+            mid = tree_ids.get(name) or self.foreign_id(name)
+            if mid is None:
+                continue
+            is_foreign = mid.startswith("f")
+            r = {"ev": ev, "th": e["th"], "m": mid}
+            if "marker" in e:
+                tag = self.tag_of_marker.get(e["marker"])
+                if tag is None:
+                    return None, f"unknown marker {e['marker']!r} in {e}"
+                r["tag"] = tag
+            if "sv" in e:
+                r["sv"] = e["sv"]
+            if "body" in e:
+                if e["body"] is None:
+                    continue
+                r["body"] = e["body"]
+                if is_foreign and not e.get("transform"):
+                    r["body"] = {"hooked": False, "key": dict(NOKEY)}     # not one of our module texts
+            if ev == "Lookup":
+                r["hooked"], r["key"] = e["hooked"], e["key"]
+            out.append((e, r))
+        return out, None
+
+
+# ---- R1 ------------------------------------------------------------------------------
+def _r1(rep, d, tier):
+    """design-level runs: intended designs hold, faithful disciplines and mutants are rejected."""
+    from concurrent.futures import ThreadPoolExecutor
+    from verifkit import tlc
+    big = tier == "thorough"
+    ab = ["a", "b"]
+    jobs = [
+        # label, cfg kwargs, expected violated invariant(s) (None: must hold)
+        ("ideal: confkey marker, locked patch, 2 threads, nested imports",
+         dict(mods=ab, confs=["default", "nopep", "ffirst"] if big else ["default", "nopep"], threads=[1, 2], maxsrc=2,
+              maxruns=2, marker="confkey", patch="locked", nest=True), None),
+        ("ideal: confkey marker, no global (private), 2 threads, nested imports",
+         dict(mods=ab, confs=["default", "nopep", "ffirst"] if big else ["default", "nopep"], threads=[1, 2], maxsrc=2,
+              maxruns=2, marker="confkey", patch="private", nest=True), None),
+        ("ideal sequential: all configurations, 3 runs",
+         dict(mods=["a"], confs=ALL_CONFS, threads=[1], maxsrc=2, maxruns=3, marker="confkey", patch="locked",
+              nest=False), None),
+        ("mutant v0230 marker (faithful), sequential",
+         dict(mods=["a"], confs=ALL_CONFS, threads=[1], maxsrc=2, maxruns=2, marker="v0230", patch="locked",
+              nest=False), ("I2",)),
+        ("mutant unlocked patch (faithful), 2 threads",
+         dict(mods=ab, confs=["default"], threads=[1, 2], maxsrc=1, maxruns=1, marker="confkey", patch="unlocked",
+              nest=False), ("I1plain", "I1marked")),
+        ("mutant unlocked patch (faithful), 1 thread, nested import",
+         dict(mods=ab, confs=["default"], threads=[1], maxsrc=1, maxruns=1, marker="confkey", patch="unlocked",
+              nest=True), ("I1marked",)),
+        ("mutant leaky patch (never restored)",
+         dict(mods=ab, confs=["default"], threads=[1], maxsrc=1, maxruns=2, marker="confkey", patch="leaky",
+              nest=False, inv="INVARIANT I3\n"), ("I3",)),
+    ]
+
+    def one(i):
+        label, kw, want = jobs[i]
+        cfg = _cfg(d, "r1_%d" % i, **kw)
+        return tlc.run_tlc("PycCache.tla", cfg, workers=4, coverage=want is None)
+    with ThreadPoolExecutor(len(jobs)) as ex:
+        results = list(ex.map(one, range(len(jobs))))
+    for (label, kw, want), res in zip(jobs, results):
+        rep.tlc(res, label)
+        if want is None:
+            if res.violated:
+                rep.machinery(f"PycCache.tla [{label}] violates {res.violated}: the intended design is itself wrong")
+            ignore = {"Finish"} if kw["patch"] == "locked" else {"Patch", "Restore"} if kw["patch"] == "private" else set()
+            zero = [a for a in res.zero_actions() if a not in ignore]
+            if zero:
+                rep.machinery(f"vacuous TLC run [{label}]: actions never taken: {zero}")
+        else:
+            if res.violated not in want:
+                rep.machinery(f"spec mutant [{label}] should violate {want}, TLC says {res.violated}: "
+                              f"the model cannot tell the designs apart")
+            rep.add("spec_mutants_killed")
+
+
+def _tables(rep, d, marker):
+    from verifkit import tlc
+    from verifkit.util import write_file
+    write_file(d, "MCTables_%s.tla" % marker,
+               "---- MODULE MCTables_%s ----\nEXTENDS PycCache, Json\nASSUME PrintT(ToJson(Tables))\n====\n" % marker)
+    cfg = _cfg(d, "MCTables_%s" % marker, mods=["a"], confs=["default"], threads=[1], maxsrc=1, maxruns=0,
+               marker=marker, patch="unlocked", nest=False, inv="")
+    res = tlc.run_tlc(os.path.join(d, "MCTables_%s.tla" % marker), cfg, workers=1)
+    rows = [r for r in res.printed if isinstance(r, dict) and "want" in r]
+    if not rows:
+        rep.machinery("PycCache.tla Tables were not emitted")
+    return rows[0]
+
+
+# ---- reference runs (empty cache) --------------------------------------------------------
+def _references(rep, ctx, d, pool):
+    """The statement's own reference: every configuration on an empty cache, both source versions.
+    Also validates concretiser and projection against the spec's tables, and detects the marker
+    and patch disciplines of the implementation under test."""
+    tabs = _tables(rep, d, "confkey")
+    want = tabs["want"]
+    cases = [(c, v) for c in ALL_CONFS + ["off"] for v in (1, 2)]
+
+    def one(cv):
+        c, v = cv
+        steps = [{"op": "edit", "m": "a"}] * (v - 1) + [{"op": "run", "hook": {"a": c}, "order": ["a"]}]
+        return ctx.exec_behaviour({"steps": steps})
+    res = list(pool.map(one, cases))
+    patched = {}
+    for (c, v), (runs, log) in zip(cases, res):
+        r = runs[-1]
+        rep.count()
+        if r["out"]["errors"]:
+            rep.machinery(f"reference run {c}/v{v} failed: {r['out']['errors']}")
+        b = r["out"]["behav"]["a"]
+        files = r["dir"]["a"]
+        if b["ver"] != v or behaviour_key(b) != want[c]:
+            rep.machinery(f"oracle cannot be trusted: on an empty cache configuration {c} (source v{v}) behaves as "
+                          f"{behaviour_key(b)} / version {b['ver']}, PycCache.tla Want({c}) = {want[c]}")
+        if len(files) != 1:
+            rep.machinery(f"reference run {c}/v{v}: expected one bytecode file, found {sorted(files)}")
+        (mk, slot), = files.items()
+        if slot["body"] != want[c] or slot["sv"] != v:
+            rep.machinery(f"projection cannot be trusted: bytecode written under {c} projects to {slot}, "
+                          f"PycCache.tla Want({c}) = {want[c]}, source version {v}")
+        if c != "off" and mk == "":
+            rep.violation({"marker": "hooked bytecode written to unmarked file", "conf": facts(want[c])},
+                          f"hooked import under {c} cached its transformed bytecode in the unmarked file",
+                          {"kind": "seq", "steps": [{"op": "run", "hook": {"a": c}, "order": ["a"]}]})
+        if c == "off" and mk != "":
+            rep.violation({"marker": "unhooked bytecode written to marked file"},
+                          f"unhooked import cached its bytecode in a marked file ({mk})",
+                          {"kind": "seq", "steps": [{"op": "run", "hook": {"a": c}, "order": ["a"]}]})
+        if ctx.marker_of_conf.setdefault(c, mk) != mk:
+            rep.machinery(f"marker of configuration {c} is not stable: {ctx.marker_of_conf[c]!r} vs {mk!r}")
+        ctx.ref[(c, v)] = b
+        patched[c] = any(e["ev"] == "Patch" and e.get("name") == "pa.mod" for e in log)
+        ctx.traces.append(({"kind": "seq", "steps": [{"op": "edit", "m": "a"}] * (v - 1) +
+                            [{"op": "run", "hook": {"a": c}, "order": ["a"]}]}, log))
+    if rep.violations:
+        return False
+    # marker discipline
+    mk = {c: ctx.marker_of_conf[c] for c in ALL_CONFS}
+    if len(set(mk.values())) == 1:
+        ctx.marker_mode = "v0230"
+    elif all((mk[c1] == mk[c2]) == (want[c1] == want[c2]) for c1 in ALL_CONFS for c2 in ALL_CONFS):
+        ctx.marker_mode = "confkey"
+    else:
+        rep.machinery(f"marker discipline of the implementation is neither v0230 nor confkey: {mk}")
+    tags = _tables(rep, d, ctx.marker_mode)["tag"]
+    for c in ALL_CONFS:
+        ctx.tag_of_marker[mk[c]] = tags[c]
+    # patch discipline
+    hooked_p = {patched[c] for c in ALL_CONFS}
+    if hooked_p == {True}:
+        ctx.patch_mode = "locked" if patched["off"] else "unlocked"
+    elif hooked_p == {False}:
+        ctx.patch_mode = "private"
+    else:
+        rep.machinery(f"patch discipline differs between configurations: {patched}")
+    ctx.tables = tabs
+    rep.note(f"implementation under test: MarkerMode={ctx.marker_mode} markers={sorted(set(mk.values()))} "
+             f"PatchMode={ctx.patch_mode}")
+    return True
+
+
+# ---- R2 sequential ------------------------------------------------------------------------
+def _macro_graph(g):
+    """idle node -> [(step description, next idle node)] of a dumped single-thread graph."""
+    from verifkit.tlc import parse_action
+    out = g.out()
+    macro = {}
+    for n, st in g.nodes.items():
+        if st["phase"] != "idle":
+            continue
+        edges = []
+        for a, t in out[n]:
+            name, args = parse_action(a) if not a.startswith("StartRunWith") else ("StartRunWith", [])
+            if name == "EditSource":
+                edges.append(({"op": "edit", "m": args[0]}, t))
+            elif name == "StartRunWith":
+                hook = dict(g.nodes[t]["hook"])
+                stack = [(t, [])]
+                while stack:
+                    x, order = stack.pop()
+                    for a2, t2 in out[x]:
+                        n2, args2 = parse_action(a2)
+                        if n2 == "EndRun":
+                            if order:
+                                edges.append(({"op": "run", "hook": hook, "order": list(order)}, t2))
+                        else:
+                            stack.append((t2, order + [args2[1]] if n2 == "Lookup" else order))
+        macro[n] = edges
+    return macro
+
+
+def _macro_paths(g, macro, rnd, limit):
+    """all run sequences (maximal macro paths, trailing/leading edits trimmed); a seeded sample
+    that still covers every (first run, edit?, second run) prefix when there are more than limit."""
+    init = g.init[0]
+    paths = []
+
+    def walk(n, acc):
+        nxt = [(s, t) for s, t in macro[n] if not (s["op"] == "edit" and not acc)]
+        if not nxt:
+            p = list(acc)
+            while p and p[-1][0]["op"] == "edit":
+                p.pop()
+            if p:
+                paths.append(p)
+            return
+        for s, t in nxt:
+            acc.append((s, t))
+            walk(t, acc)
+            acc.pop()
+    walk(init, [])
+    uniq = {}
+    for p in paths:
+        uniq.setdefault(json.dumps([s for s, _ in p], sort_keys=True), p)
+    paths = [uniq[k] for k in sorted(uniq)]
+    total = len(paths)
+    if limit is not None and total > limit:
+        rnd.shuffle(paths)
+        chosen, seen_prefix, rest = [], set(), []
+        for p in paths:
+            nruns, k = 0, 0
+            for k, (s, _) in enumerate(p):
+                nruns += s["op"] == "run"
+                if nruns == 2:
+                    break
+            pre = json.dumps([s for s, _ in p[:k + 1]], sort_keys=True)
+            if pre not in seen_prefix:
+                seen_prefix.add(pre)
+                chosen.append(p)
+            else:
+                rest.append(p)
+        paths = (chosen + rest)[:limit]
+    return paths, total
+
+
+def _slots_expected(ctx, st, m):
+    """TLC node state -> {real marker string: slot} of module m (files that exist)."""
+    exp = {}
+    if st["plain"][m]["sv"] != 0:
+        exp[""] = st["plain"][m]
+    for hk, slot in st["marked"][m].items():
+        if slot["sv"] != 0:
+            tag = _unhash(hk)
+            ms = [s for s, t in ctx.tag_of_marker.items() if t == tag]
+            exp[ms[0] if ms else "?" + json.dumps(tag, sort_keys=True)] = slot
+    return exp
+
+
+def _check_run(rep, ctx, beh, ri, r, exp_state, origin):
+    """one real run against (a) the empty-cache reference = C16 itself, (b) I1 on the real files,
+    (c) the faithful model's prediction (drift only)."""
+    out = r["out"]
+    if out["errors"]:
+        rep.violation({"import_error": out["errors"][0][:120], "hook": r["hook"]},
+                      f"import failed in run {ri} of {beh['steps']}: {out['errors']}", beh)
+        return
+    want = ctx.tables["want"]
+    for m, b in sorted(out["behav"].items()):
+        rep.count()
+        c, v = r["hook"][m], r["vers"][m]
+        ref = ctx.ref[(c, v)]
+        if b != ref:
+            got = behaviour_key(b)
+            if b["ver"] != v:
+                key = {"stale_source": {"executed_version": b["ver"], "current_version": v}, "read_under": facts(want[c])}
+            else:
+                key = {"written_under": facts(got), "read_under": facts(want[c])}
+            hist = "; ".join(("edit " + s["m"]) if s["op"] == "edit" else "run " + json.dumps(s["hook"], sort_keys=True)
+                             for s in beh["steps"])
+            rep.violation(key, f"run {ri + 1} of [{hist}]: module {m} under {c} (source v{v}) behaves as {b}, "
+                               f"the same run on an empty cache behaves as {ref}: cached bytecode written under "
+                               f"{facts(got)} was reused under {facts(want[c])}", beh)
+        if exp_state is not None:
+            e = exp_state["executed"][m]
+            if e["sv"] != 0 and (behaviour_key(b) != e["body"] or b["ver"] != e["sv"]):
+                rep.spec_drift(f"{origin}: run {ri + 1} of {beh['steps']}: {m} executed {behaviour_key(b)} v{b['ver']}, "
+                               f"faithful model says {e}")
+    for m, files in sorted(r["dir"].items()):
+        for mk, slot in files.items():
+            if (mk == "") == slot["body"]["hooked"]:
+                what = "hooked bytecode in unmarked file" if mk == "" else "unhooked bytecode in marked file"
+                rep.violation({"mixed": what, "hook": r["hook"]},
+                              f"run {ri + 1} of {beh['steps']}: {what}: {PKG[m]}/mod .pyc marker {mk!r} holds {slot}", beh)
+        if exp_state is not None:
+            exp = _slots_expected(ctx, exp_state, m)
+            if exp != files:
+                rep.spec_drift(f"{origin}: after run {ri + 1} of {beh['steps']}: files of {m} are {files}, "
+                               f"faithful model says {exp}")
+
+
+def _r2_sequential(rep, ctx, d, pool, tier, rnd):
+    from verifkit import tlc
+    configs = [("seq1", dict(mods=["a"], confs=ALL_CONFS, threads=[1], maxsrc=2, maxruns=3), 420 if tier == "quick" else None),
+               ("seq2", dict(mods=["a", "b"], confs=["default", "nopep"], threads=[1], maxsrc=1 if tier == "quick" else 2,
+                             maxruns=2), 60 if tier == "quick" else 1500)]
+    for label, kw, limit in configs:
+        cfg = _cfg(d, label, marker=ctx.marker_mode, patch=ctx.patch_mode, nest=False, inv="", **kw)
+        dot = os.path.join(d, label)
+        res = tlc.run_tlc("PycCache.tla", cfg, workers=8, coverage=True, dump_dot=dot)
+        rep.tlc(res, f"faithful model ({ctx.marker_mode}/{ctx.patch_mode}) {label}: graph for replay")
+        ignore = {"Patch", "Restore"} if ctx.patch_mode == "private" else {"Finish"} if ctx.patch_mode == "locked" else set()
+        zero = [a for a in res.zero_actions() if a not in ignore and not (a == "EditSource" and kw["maxsrc"] == 1)]
+        if zero:
+            rep.machinery(f"vacuous TLC run {label}: actions never taken: {zero}")
+        g = tlc.parse_dot(dot + ".dot")
+        macro = _macro_graph(g)
+        paths, total = _macro_paths(g, macro, rnd, limit)
+        rep.add("run_sequences_in_model", total)
+        rep.add("run_sequences_replayed", len(paths))
+        behs = [{"kind": "seq", "steps": [s for s, _ in p]} for p in paths]
+        results = list(pool.map(ctx.exec_behaviour, behs))
+        for p, beh, (runs, log) in zip(paths, behs, results):
+            ends = [t for s, t in p if s["op"] == "run"]
+            for ri, (r, t) in enumerate(zip(runs, ends)):
+                _check_run(rep, ctx, beh, ri, r, g.nodes[t], label)
+            if len(runs) >= 2:
+                rep.nontrivial(json.dumps(beh["steps"], sort_keys=True))
+            ctx.traces.append((beh, log))
+        if behs:
+            rep.sample({"config": label, "run_sequence": behs[len(behs) // 2]["steps"]})
+
+
+# ---- R2 concurrent ----------------------------------------------------------------------
+def _schedule_of(trace_or_path):
+    from verifkit.tlc import parse_action
+    steps = []
+    for a in trace_or_path:
+        name, args = parse_action(a)
+        if name in ("Lookup",):
+            steps.append([args[0], name, args[1]])
+        elif name in ("Patch", "ComputePath", "ReadCache", "Compile", "WriteCache", "Restore", "Finish"):
+            steps.append([args[0], name])
+    return steps
+
+
+def _r2_concurrent(rep, ctx, d, pool, tier, rnd):
+    from verifkit import tlc
+    kw = dict(mods=["a", "b"], confs=["default", "nopep"], threads=[1, 2], maxsrc=1, maxruns=1,
+              marker=ctx.marker_mode, patch=ctx.patch_mode, nest=False)
+    cases = []
+    # (1) TLC's own counterexamples of I1 for the discipline under test, one per direction
+    for inv in ("I1marked", "I1plain"):
+        cfg = _cfg(d, "conc_" + inv, inv="INVARIANT %s\n" % inv, **kw)
+        res = tlc.run_tlc("PycCache.tla", cfg, workers=4)
+        rep.tlc(res, f"faithful model, 2 threads: {inv}")
+        if res.violated:
+            hook = next((st["hook"] for a, st in res.error_trace if st.get("phase") == "run"), None)
+            if hook is None:
+                rep.machinery("cannot read the hook assignment from TLC's counterexample")
+            cases.append({"origin": f"TLC counterexample of {inv}", "hook": dict(hook),
+                          "schedule": _schedule_of([a for a, _ in res.error_trace]), "final": None, "complete": False})
+    # (2) paths of the dumped graph
+    cfg = _cfg(d, "conc", inv="", **kw)
+    dot = os.path.join(d, "conc")
+    res = tlc.run_tlc("PycCache.tla", cfg, workers=8, coverage=True, dump_dot=dot)
+    rep.tlc(res, f"faithful model ({ctx.marker_mode}/{ctx.patch_mode}), 2 threads: graph for schedules")
+    g = tlc.parse_dot(dot + ".dot")
+    out = g.out()
+    n_sched = 150 if tier == "quick" else 1500
+    seen = set()
+    starts = [(a, t) for a, t in out[g.init[0]]]
+    tries = 0
+    while len(seen) < n_sched and tries < n_sched * 20:
+        tries += 1
+        a, n = starts[rnd.randrange(len(starts))]
+        labels = []
+        hook = dict(g.nodes[n]["hook"])
+        while True:
+            nxt = out[n]
+            if not nxt:
+                break
+            a, t = nxt[rnd.randrange(len(nxt))]
+            if a == "EndRun":
+                # end the run only when every module was imported: longer schedules
+                others = [x for x in nxt if x[0] != "EndRun"]
+                if others:
+                    a, t = others[rnd.randrange(len(others))]
+            labels.append(a)
+            n = t
+            if a == "EndRun":
+                break
+        sched = _schedule_of(labels)
+        if len({s[0] for s in sched}) < 2:
+            continue
+        k = json.dumps([hook, sched])
+        if k in seen:
+            continue
+        seen.add(k)
+        cases.append({"origin": "path of the dumped 2-thread graph", "hook": hook, "schedule": sched, "final": g.nodes[n],
+                      "complete": True})
+    rep.add("schedules_replayed", len(cases))
+
+    def one(case):
+        beh = {"kind": "conc", "steps": [{"op": "run", "hook": case["hook"], "schedule": case["schedule"]}]}
+        runs, log = ctx.exec_behaviour(beh)
+        r = runs[0]
+        follow = None
+        bad = [(m, mk, s) for m, fs in r["dir"].items() for mk, s in fs.items() if (mk == "") == s["body"]["hooked"]]
+        if bad:
+            # what a later process sees: hook every module (default) / none, on the cache left behind
+            tree_steps = beh["steps"] + [{"op": "run", "hook": {m: "default" for m in case["hook"]}, "order": sorted(case["hook"])},
+                                         {"op": "run", "hook": {m: "off" for m in case["hook"]}, "order": sorted(case["hook"])}]
+            fruns, _ = ctx.exec_behaviour({"kind": "conc", "steps": tree_steps})
+            follow = fruns[1:]
+        return beh, runs, log, bad, follow
+    for case, (beh, runs, log, bad, follow) in zip(cases, pool.map(one, cases)):
+        r = runs[0]
+        rep.count()
+        rep.nontrivial(json.dumps(case["schedule"]))
+        if r["out"]["sched_problem"]:
+            rep.spec_drift(f"schedule could not be followed ({case['origin']}): {r['out']['sched_problem']} in {case['schedule']}")
+            continue
+        if r["out"]["errors"]:
+            rep.violation({"import_error": r["out"]["errors"][0][:120], "concurrent": True},
+                          f"import failed under schedule {case['schedule']}: {r['out']['errors']}", beh)
+            continue
+        for m, mk, slot in bad:
+            what = "hooked bytecode written to unmarked file" if mk == "" else "unhooked bytecode written to marked file"
+            cons = []
+            for fr in follow or []:
+                for m2, b in sorted(fr["out"]["behav"].items()):
+                    ref = ctx.ref[(fr["hook"][m2], 1)]
+                    if b != ref:
+                        cons.append(f"a later process with hook {fr['hook'][m2]} on {PKG[m2]} behaves as {b} instead of {ref}")
+            rep.violation({"race": what},
+                          f"two threads, hook {case['hook']}, schedule {case['schedule']} ({case['origin']}): "
+                          f"{PKG[m]}/mod bytecode file with marker {mk!r} holds {slot['body']}. " + "; ".join(cons), beh)
+        if not bad:
+            for m, b in sorted(r["out"]["behav"].items()):
+                if b != ctx.ref[(case["hook"][m], 1)]:
+                    rep.violation({"concurrent_behaviour": facts(behaviour_key(b)), "read_under": case["hook"][m]},
+                                  f"schedule {case['schedule']}: {m} behaves as {b}", beh)
+        if case["final"] is not None:
+            for m in sorted(case["hook"]):
+                if m in r["dir"]:
+                    exp = _slots_expected(ctx, case["final"], m)
+                    if exp != r["dir"][m]:
+                        rep.spec_drift(f"schedule {case['schedule']} hook {case['hook']}: files of {m} are {r['dir'][m]}, "
+                                       f"faithful model says {exp}")
+        ctx.traces.append((beh, log))
+    rep.sample({"two_thread_schedule": cases[0]["schedule"], "hook": cases[0]["hook"]} if cases else "no schedule")
+
+
+# ---- R3 -------------------------------------------------------------------------------------
+def _r3_traces(rep, ctx, d, tier, rnd):
+    from verifkit import tlc
+    from verifkit.util import write_file
+    cap = 30000 if tier == "quick" else 400000
+    traces = list(ctx.traces)
+    # first trace first (the very first hooked run of this check, with beartype's lazy imports)
+    head, rest = traces[:1], traces[1:]
+    rnd.shuffle(rest)
+    if ctx.marker_mode == "v0230" and ctx.patch_mode == "unlocked":
+        cfg = "trace/PycCacheTrace.cfg"
+    else:
+        cfg = write_file(d, "PycCacheTrace_gen.cfg", TRACE_CFG % {
+            "foreign": ", ".join('"%s"' % f for f in FOREIGN_IDS), "marker": ctx.marker_mode, "patch": ctx.patch_mode})
+    dropped = 0
+    for attempt in range(6):
+        lines, meta, used = [], [], []
+        for ti, (beh, log) in enumerate(head + rest):
+            ev, problem = ctx.norm_events(log)
+            if ev is None:
+                rep.spec_drift(f"trace not expressible: {problem}")
+                continue
+            if len(lines) + len(ev) > cap:
+                break
+            used.append(ti)
+            for raw, r in ev:
+                lines.append(json.dumps(r, sort_keys=True))
+                meta.append((ti, raw, r))
+        path = os.path.join(d, "pyc_trace_%d.ndjson" % attempt)
+        with open(path, "w") as fh:
+            fh.write("\n".join(lines) + "\n")
+        res = tlc.run_tlc("trace/PycCacheTrace.tla", cfg, workers=1, env={"TRACE_FILE": path}, heap="6g")
+        rep.tlc(res, f"PycCacheTrace ({len(used)} behaviours, {len(lines)} events)")
+        viols = [r for r in res.printed if isinstance(r, dict) and "viol" in r]
+        rej = [r for r in res.printed if isinstance(r, dict) and "rejected_at" in r]
+        if not res.violated:
+            break
+        pos = rej[-1]["rejected_at"] if rej else None
+        if pos is None or pos > len(meta):
+            rep.machinery("PycCacheTrace.tla rejected the log but did not say where:\n" + res.output[-1500:])
+        ti, raw, r = meta[pos - 1]
+        rep.spec_drift(f"recorded run is not a behaviour of PycCache.tla ({ctx.marker_mode}/{ctx.patch_mode}): "
+                       f"event {r} of behaviour {(head + rest)[ti][0]['steps']}")
+        dropped += 1
+        bad = (head + rest)[ti]
+        head = [t for t in head if t is not bad]
+        rest = [t for t in rest if t is not bad]
+    else:
+        rep.machinery("PycCacheTrace.tla rejects too many recorded runs: the trace specification does not bind")
+    if dropped > max(3, len(used) // 20):
+        rep.machinery(f"{dropped} recorded behaviours are not behaviours of the faithful model")
+    rep.add("traces_validated_against_impl", len(used))
+    rep.add("trace_events", len(lines))
+    inv_foreign = {v: k for k, v in ctx.foreign.items()}
+    want = ctx.tables["want"]
+    for v in viols:
+        ti, raw, r = meta[v["at"] - 1]
+        beh = (head + rest)[ti][0]
+        inv, mid = v["viol"], v["m"]
+        if inv in ("I1marked", "I1plain"):
+            what = "unhooked bytecode written to marked file" if inv == "I1marked" else "hooked bytecode written to unmarked file"
+            if mid in inv_foreign:
+                rep.violation({"nested_import": what, "module": inv_foreign[mid]},
+                              f"{inv} (trace validation): module {inv_foreign[mid]}, imported inside the patch window of a "
+                              f"hooked import of the same thread, {'read from' if r['ev'] == 'Read' else 'was cached in'} "
+                              f"a file carrying beartype's marker although it is compiled without the transformation "
+                              f"(event {raw})", beh)
+            elif beh.get("kind") == "conc":
+                rep.violation({"race": what}, f"{inv} (trace validation) at event {raw} of {beh['steps']}", beh)
+            else:
+                rep.violation({"mixed": what.replace("written to", "in"), "hook": next(
+                    (s["hook"] for s in beh["steps"] if s["op"] == "run"), None)},
+                    f"{inv} (trace validation) at event {raw} of {beh['steps']}", beh)
+        elif inv == "I2":
+            # the run and module: walk back to the Start event, forward to the Done event of that module
+            i = v["at"] - 1
+            start = next(j for j in range(i, -1, -1) if meta[j][2]["ev"] == "Start")
+            hook = meta[start][2]["hook"].get(mid, "off")
+            done = next((meta[j][2] for j in range(i, len(meta)) if meta[j][2]["ev"] == "Done" and meta[j][2]["m"] == mid
+                         and meta[j][0] == ti), None)
+            body = done["body"] if done else None
+            if mid in ("pa", "pb") or beh.get("kind") == "conc":
+                continue        # package __init__ modules repeat their module's finding; races are keyed above
+            rep.violation({"written_under": facts(body), "read_under": facts(want[hook])},
+                          f"I2 (trace validation): in {beh['steps']} module {mid} hooked with {hook} executed bytecode "
+                          f"{body} (event {raw})", beh)
+        elif inv == "I3":
+            rep.violation({"global_not_restored": True}, f"I3 (trace validation) at event {raw} of {beh['steps']}", beh)
+    return len(used)
+
+
+def run(rep, tier, seed):
+    from concurrent.futures import ThreadPoolExecutor
+    from verifkit.util import scratch
+    rep.assumptions += [
+        "configuration names of PycCache.tla are related to BeartypeConf options by CONF_KW in drivers/c16.py",
+        "the body of a .pyc is read off the unmarshalled code object (injected names, decorator order) and off the "
+        "module's behaviour; both projections are validated against each other and against Want(c) on empty caches",
+        "bytecode goes to a scratch PYTHONPYCACHEPREFIX (file names keep their markers); source edits change mtime and size",
+        "decorator placement of classes under LAST_BEFORE_DECOR_HOSTILE is not distinguished from LAST",
+    ]
+    rnd = random.Random(seed)
+    with scratch("c16-") as d, ThreadPoolExecutor(16) as pool:
+        ctx = Ctx(rep, d, seed)
+        r1 = pool.submit(_r1, rep, d, tier)
+        # the first hooked run: compiles beartype into the scratch prefix (and records beartype's lazy imports)
+        warm = ctx.exec_behaviour({"kind": "seq", "steps": [{"op": "run", "hook": {"a": "default", "b": "off"}, "order": ["a", "b"]}]})
+        ctx.traces.append(({"kind": "seq", "steps": [{"op": "run", "hook": {"a": "default", "b": "off"}, "order": ["a", "b"]}]}, warm[1]))
+        ok = _references(rep, ctx, d, pool)
+        r1.result()
+        if ok:
+            _r2_sequential(rep, ctx, d, pool, tier, rnd)
+            _r2_concurrent(rep, ctx, d, pool, tier, rnd)
+            _r3_traces(rep, ctx, d, tier, rnd)
+        rep.add("interpreter_runs", ctx.child_runs)
+    rep.cov["exhaustive"] = tier == "thorough"
+
+
+def replay(rep, path):
+    from concurrent.futures import ThreadPoolExecutor
+    from verifkit.util import scratch
+    case = json.load(open(path))["case"]
+    rep.level = "exploration"
+    with scratch("c16r-") as d, ThreadPoolExecutor(8) as pool:
+        ctx = Ctx(rep, d, 0)
+        runs, log = ctx.exec_behaviour(case)
+        for st, r in zip([s for s in case["steps"] if s["op"] == "run"], runs):
+            print("run", json.dumps(st, sort_keys=True))
+            for m, b in sorted(r["out"]["behav"].items()):
+                c, v = r["hook"][m], r["vers"][m]
+                (ref_runs, _) = ctx.exec_behaviour({"steps": [{"op": "edit", "m": m}] * (v - 1) +
+                                                    [{"op": "run", "hook": {m: c}, "order": [m]}]})
+                ref = ref_runs[-1]["out"]["behav"][m]
+                print(f"  {m} under {c} v{v}: behaves {b}")
+                print(f"  {' ' * len(m)} same run on an empty cache: {ref}   {'SAME' if ref == b else 'DIFFERENT'}")
+                rep.count()
+                rep.nontrivial(json.dumps([st, m]))
+            print("  files:", json.dumps(r["dir"], sort_keys=True))
+            if r["out"].get("sched_problem"):
+                print("  scheduler:", r["out"]["sched_problem"])
+
+
 if __name__ == "__main__":
     child_main()
